@@ -192,6 +192,19 @@ def revolve_case(draw, fns=None):
 
 
 @st.composite
+def hole_spec(draw):
+    """star: star-shaped ring (centroid inside); band: annular sector spanning more than a half turn (C / U shape:
+    concave, its centroid and the centre of its bounding box lie in the material it wraps around); ell: L shape"""
+    kind = draw(st.sampled_from(["star", "star", "band", "band", "ell"]))
+    h = {"kind": kind, "n": draw(st.integers(3, 6)), "rad": [draw(_f(0.04, 0.08)) for _ in range(6)], "phase": draw(_f(0, 6.28))}
+    if kind == "band":
+        h.update({"span": draw(_f(3.3, 5.8)), "ratio": draw(_f(0.4, 0.8)), "m": draw(st.integers(3, 9))})
+    elif kind == "ell":
+        h.update({"thick": draw(_f(0.15, 0.45))})
+    return h
+
+
+@st.composite
 def polygon_spec(draw, max_holes=3, R=None):
     n = draw(st.one_of(st.integers(3, 6), st.integers(3, 14)))
     j = 0.1 if n < 5 else 0.3
@@ -200,10 +213,7 @@ def polygon_spec(draw, max_holes=3, R=None):
         "rad": [draw(_f(1.0, 2.0)) for _ in range(n)],
         "jit": [draw(_f(-j, j)) for _ in range(n)],
         "phase": draw(_f(0, 6.28)),
-        "holes": [
-            {"n": draw(st.integers(3, 6)), "rad": [draw(_f(0.04, 0.08)) for _ in range(6)], "phase": draw(_f(0, 6.28))}
-            for _ in range(draw(st.integers(0, max_holes)))
-        ],
+        "holes": [draw(hole_spec()) for _ in range(draw(st.integers(0, max_holes)))],
         "R": R if R is not None else draw(length(1e-2, 3e2)),
         "off": [draw(st.sampled_from([0.0, 0.0, 1.0, -7.0])), draw(st.sampled_from([0.0, 0.0, 2.0, 5.0]))],
         "hole_phase": draw(_f(0, 6.28)),
@@ -220,6 +230,23 @@ def build_rings(spec, centre=False):
     for i, h in enumerate(spec["holes"]):
         m = h["n"]
         c = 0.15 * R * np.array([math.cos(spec["hole_phase"] + 2 * math.pi * i / 3), math.sin(spec["hole_phase"] + 2 * math.pi * i / 3)])
+        kind = h.get("kind", "star")
+        if kind == "band":
+            # annular sector between radii ratio*b and b over `span` radians, as one counter-clockwise ring
+            b = h["rad"][0] * R
+            t = h["phase"] + np.linspace(0.0, h["span"], h["m"] + 1)
+            outer_arc = np.column_stack((np.cos(t), np.sin(t))) * b
+            inner_arc = np.column_stack((np.cos(t[::-1]), np.sin(t[::-1]))) * (b * h["ratio"])
+            rings.append(c + np.vstack((outer_arc, inner_arc)))
+            continue
+        if kind == "ell":
+            # L shape inside the square of half side b/sqrt(2), arms of relative thickness `thick`, rotated by phase
+            b = h["rad"][0] * R / math.sqrt(2.0)
+            w = 2 * b * h["thick"]
+            L = np.array([[-b, -b], [b, -b], [b, -b + w], [-b + w, -b + w], [-b + w, b], [-b, b]])
+            cs, sn = math.cos(h["phase"]), math.sin(h["phase"])
+            rings.append(c + L @ np.array([[cs, sn], [-sn, cs]]))
+            continue
         a = h["phase"] + 2 * math.pi * np.arange(m) / m
         rings.append(c + np.column_stack((np.cos(a), np.sin(a))) * (np.array(h["rad"][:m]) * R)[:, None])
     off = np.array(spec["off"]) * R
@@ -370,6 +397,57 @@ def similarity(draw, size, rigid_only=False):
 
 
 @st.composite
+def draw_op(draw, kind, menu):
+    op = draw(st.sampled_from(menu))
+    pool = [1.0, 2.0, 0.5, 3.0]
+    o = {"op": op, "check": draw(st.sampled_from([True, True, True, False]))}
+    if op in ("set_radius",):
+        o["v"] = draw(st.one_of(st.sampled_from(pool), _f(0.2, 5.0)))
+    elif op == "set_height":
+        if kind == "Extrusion":
+            o["v"] = draw(st.one_of(st.sampled_from([-1.0, -2.0, 1.0, 2.0, -0.5, 3.0]), _f(0.2, 5.0), _f(-5.0, -0.2)))
+        else:
+            o["v"] = draw(st.one_of(st.sampled_from(pool), _f(0.2, 5.0)))
+    elif op == "set_sections":
+        o["v"] = draw(st.integers(3, 24))
+    elif op == "set_subdivisions":
+        o["v"] = draw(st.integers(0, 2))
+    elif op == "set_extents":
+        o["v"] = [draw(st.one_of(st.sampled_from(pool), _f(0.2, 5.0))) for _ in range(3)]
+    elif op in ("extents_inplace",):
+        o["i"] = draw(st.integers(0, 2))
+        o["v"] = draw(st.one_of(st.sampled_from(pool), _f(0.2, 5.0)))
+    elif op == "extents_imul":
+        o["v"] = draw(st.sampled_from([2.0, 0.5, 3.0]))
+    elif op == "set_transform":
+        o["M"] = draw(placement(3.0, kinds=["identity", "translation", "rigid", "rigid", "mirror", "mirror_axis"]))["M"]
+    elif op == "transform_iadd":
+        o["i"] = draw(st.integers(0, 2))
+        o["v"] = draw(st.sampled_from([1.0, -2.0, 0.5, 0.25]))
+    elif op == "center_inplace":
+        o["n"] = draw(st.integers(1, 3))
+        o["v"] = [draw(st.sampled_from([1.0, -2.0, 0.5, 3.0])) for _ in range(3)]
+        o["via_sphere"] = draw(st.booleans())
+    elif op in ("set_center", "sphere_center", "transform_inplace"):
+        o["v"] = [draw(st.sampled_from([0.0, 1.0, -2.0, 0.5])) for _ in range(3)]
+    elif op == "apply_transform":
+        o["M"] = draw(similarity(3.0, rigid_only=(kind == "Extrusion")))
+    elif op == "apply_mirror":
+        # reflection (possibly rotated, possibly with a uniform scale): det < 0
+        M = np.array(draw(placement(3.0, kinds=["mirror", "mirror", "mirror_axis"]))["M"])
+        sc = 1.0 if kind == "Extrusion" else draw(st.sampled_from([1.0, 1.0, 1.0, 2.0, 0.5]))
+        M[:3, :3] *= sc
+        o["M"] = M.tolist()
+    elif op == "apply_reject":
+        o["M"] = draw(gm.matrix(classes=["anisotropic", "shear"], tscale=1.0))["M"]
+    elif op == "set_polygon":
+        o["v"] = draw(polygon_spec(max_holes=1, R=draw(st.sampled_from([1.0, 0.5, 2.0]))))
+    elif op == "slide":
+        o["v"] = draw(st.sampled_from([1.0, -1.0, 0.25]))
+    return o
+
+
+@st.composite
 def stateful_case(draw, kind=None):
     kind = kind or draw(st.sampled_from(["Box", "Sphere", "Cylinder", "Capsule", "Extrusion", "Extrusion"]))
     p = draw(prim_params(kind))
@@ -378,7 +456,7 @@ def stateful_case(draw, kind=None):
     size = prim_size(kind, p)
     ops = []
     nops = draw(st.integers(1, 7))
-    common = ["set_transform", "set_center", "transform_inplace", "apply_transform", "apply_transform", "apply_reject", "apply_mirror", "apply_mirror"]
+    common = ["set_transform", "set_center", "transform_inplace", "transform_iadd", "center_inplace", "apply_transform", "apply_transform", "apply_reject", "apply_mirror", "apply_mirror"]
     menu = {
         "Box": ["set_extents", "set_extents", "extents_inplace", "extents_imul"],
         "Sphere": ["set_radius", "set_radius", "set_subdivisions", "sphere_center"],
@@ -386,46 +464,8 @@ def stateful_case(draw, kind=None):
         "Capsule": ["set_radius", "set_height", "set_sections"],
         "Extrusion": ["set_height", "set_height", "set_height", "set_polygon", "slide"],
     }[kind] + common
-    pool = [1.0, 2.0, 0.5, 3.0]
     for _ in range(nops):
-        op = draw(st.sampled_from(menu))
-        o = {"op": op, "check": draw(st.sampled_from([True, True, True, False]))}
-        if op in ("set_radius",):
-            o["v"] = draw(st.one_of(st.sampled_from(pool), _f(0.2, 5.0)))
-        elif op == "set_height":
-            if kind == "Extrusion":
-                o["v"] = draw(st.one_of(st.sampled_from([-1.0, -2.0, 1.0, 2.0, -0.5, 3.0]), _f(0.2, 5.0), _f(-5.0, -0.2)))
-            else:
-                o["v"] = draw(st.one_of(st.sampled_from(pool), _f(0.2, 5.0)))
-        elif op == "set_sections":
-            o["v"] = draw(st.integers(3, 24))
-        elif op == "set_subdivisions":
-            o["v"] = draw(st.integers(0, 2))
-        elif op == "set_extents":
-            o["v"] = [draw(st.one_of(st.sampled_from(pool), _f(0.2, 5.0))) for _ in range(3)]
-        elif op in ("extents_inplace",):
-            o["i"] = draw(st.integers(0, 2))
-            o["v"] = draw(st.one_of(st.sampled_from(pool), _f(0.2, 5.0)))
-        elif op == "extents_imul":
-            o["v"] = draw(st.sampled_from([2.0, 0.5, 3.0]))
-        elif op == "set_transform":
-            o["M"] = draw(placement(3.0, kinds=["identity", "translation", "rigid", "rigid", "mirror", "mirror_axis"]))["M"]
-        elif op in ("set_center", "sphere_center", "transform_inplace"):
-            o["v"] = [draw(st.sampled_from([0.0, 1.0, -2.0, 0.5])) for _ in range(3)]
-        elif op == "apply_transform":
-            o["M"] = draw(similarity(3.0, rigid_only=(kind == "Extrusion")))
-        elif op == "apply_mirror":
-            # reflection (possibly rotated, possibly with a uniform scale): det < 0
-            M = np.array(draw(placement(3.0, kinds=["mirror", "mirror", "mirror_axis"]))["M"])
-            sc = 1.0 if kind == "Extrusion" else draw(st.sampled_from([1.0, 1.0, 1.0, 2.0, 0.5]))
-            M[:3, :3] *= sc
-            o["M"] = M.tolist()
-        elif op == "apply_reject":
-            o["M"] = draw(gm.matrix(classes=["anisotropic", "shear"], tscale=1.0))["M"]
-        elif op == "set_polygon":
-            o["v"] = draw(polygon_spec(max_holes=1, R=draw(st.sampled_from([1.0, 0.5, 2.0]))))
-        elif op == "slide":
-            o["v"] = draw(st.sampled_from([1.0, -1.0, 0.25]))
+        o = draw(draw_op(kind, menu))
         ops.append(o)
     # work at unit-ish scale for the stateful part: the history, not the magnitude, is what is explored here
     if kind == "Box":
@@ -439,3 +479,55 @@ def stateful_case(draw, kind=None):
         p["polygon"]["R"] = min(max(p["polygon"]["R"], 0.1), 10.0)
         p["height"] = math.copysign(min(max(abs(p["height"]), 0.1), 10.0), p["height"])
     return {"kind": kind, "p": p, "T0": draw(placement(3.0, kinds=["none", "rigid", "translation", "mirror"]))["M"], "ops": ops}
+
+
+# ----------------------------------------------------------------------------------- populations of primitives
+
+
+@st.composite
+def member_spec(draw):
+    """a primitive built with all, some or none of its arguments (none = documented defaults, no transform)"""
+    kind = draw(st.sampled_from(["Box", "Sphere", "Cylinder", "Capsule", "Extrusion"]))
+    full = {
+        "Box": {"extents": [1.0, 2.0, 3.0]},
+        "Sphere": {"radius": 1.5, "subdivisions": 1},
+        "Cylinder": {"radius": 1.0, "height": 2.0, "sections": 6},
+        "Capsule": {"radius": 1.0, "height": 2.0, "sections": 6},
+        "Extrusion": {"height": 1.5, "polygon": {"n": 4, "rad": [1, 1.5, 1, 2], "jit": [0, 0, 0, 0], "phase": 0.3, "holes": [], "R": 1.0, "off": [0.0, 0.0], "hole_phase": 0.0}},
+    }[kind]
+    how = draw(st.sampled_from(["defaults", "defaults", "some", "all"]))
+    if how == "defaults":
+        p = {}
+    elif how == "some":
+        keys = sorted(full)
+        p = {k: full[k] for k in keys if draw(st.booleans())}
+    else:
+        p = dict(full)
+    T = None if draw(st.integers(0, 3)) > 0 else draw(placement(3.0, kinds=["translation", "rigid", "mirror"]))["M"]
+    return {"kind": kind, "p": p, "T": T}
+
+
+POP_MENU = {
+    "Box": ["extents_inplace", "extents_imul", "set_extents"],
+    "Sphere": ["set_radius", "sphere_center"],
+    "Cylinder": ["set_radius", "set_height"],
+    "Capsule": ["set_radius", "set_height"],
+    "Extrusion": ["set_height", "slide"],
+}
+POP_COMMON = ["transform_inplace", "transform_inplace", "transform_iadd", "transform_iadd", "center_inplace", "center_inplace", "set_center", "set_transform", "apply_transform"]
+
+
+@st.composite
+def population_case(draw):
+    members = [draw(member_spec()) for _ in range(draw(st.integers(2, 3)))]
+    kinds = [m["kind"] for m in members]
+    steps = []
+    for _ in range(draw(st.integers(1, 4))):
+        if len(kinds) < 5 and draw(st.integers(0, 3)) == 0:
+            m = draw(member_spec())
+            kinds.append(m["kind"])
+            steps.append({"create": m})
+        else:
+            who = draw(st.integers(0, len(kinds) - 1))
+            steps.append({"who": who, "op": draw(draw_op(kinds[who], POP_MENU[kinds[who]] + POP_COMMON))})
+    return {"members": members, "steps": steps}
